@@ -16,8 +16,8 @@ Theorem C05_refresh_honoured_only_within_the_grant :
     (match cf_refresh_scopes cfg with [] => true | sc => args_has_one_of (r_gscopes r) sc end) = true /\
     let res := refresh_flow cfg s auth tok in
     o_scopes (snd res) = r_gscopes r /\
-    (exists ka, access (st (fst res)) ka = Some (minted_record cfg s r cl)) /\
-    (exists kr, refresh (st (fst res)) kr = Some (true, minted_record cfg s r cl)).
+    (exists ka, access (st (fst res)) ka = Some (minted_record (eff_cfg cfg cl LRefresh) s r cl)) /\
+    (exists kr, refresh (st (fst res)) kr = Some (true, minted_record (eff_cfg cfg cl LRefresh) s r cl)).
 Proof. exact refresh_ok_facts. Qed.
 Print Assumptions C05_refresh_honoured_only_within_the_grant.
 
